@@ -110,6 +110,70 @@ def r_key_blob(key):
     return None
 
 
+def r_u64(n):
+    return struct.pack('>Q', n)
+
+
+def r_instant(t):
+    """uint64 seconds since the epoch; None is the 'forever' sentinel 2^64-1 (PROTOCOL.certkeys)"""
+    import calendar
+    if t is None:
+        return r_u64(2 ** 64 - 1)
+    return r_u64(calendar.timegm(t.utctimetuple()))
+
+
+def r_option(o, wrapped=True):
+    """one critical option / extension: string name, string data; the data of a flag is empty, the data of
+    force-command / source-address is itself a string (PROTOCOL.certkeys: 'the contents of the data field is ... a
+    string'), an unknown option is carried verbatim"""
+    tname = type(o).__name__
+    if tname == 'SshCertExtensionUnparsed':
+        return r_string(o.extension_name.encode('ascii')) + r_string(bytes(o.extension_data))
+    name = o.get_extension_name().value.code.encode('ascii')
+    if tname == 'SshCertExtensionForceCommand':
+        inner = o.command.encode('ascii')
+        return r_string(name) + r_string(r_string(inner) if wrapped else inner)
+    if tname == 'SshCertExtensionSourceAddress':
+        inner = ','.join(str(a) for a in o.addresses).encode('ascii')
+        return r_string(name) + r_string(r_string(inner) if wrapped else inner)
+    return r_string(name) + r_string(b'')
+
+
+def r_certificate(c, wrapped=True):
+    """PROTOCOL.certkeys, v01 certificates: string type, string nonce, the key's own fields, uint64 serial, uint32 type,
+    string key id, string valid principals, uint64 valid after, uint64 valid before, string critical options, string
+    extensions, string reserved, string signature key, string signature"""
+    tname = type(c).__name__
+    if not tname.startswith('SshHostCertificateV01'):
+        return None
+    p = c.public_key.params
+    algo = c.host_key_algorithm.value.code.encode('ascii')
+    if tname.endswith('RSA'):
+        key = r_mpint(p.public_exponent) + r_mpint(p.modulus)
+    elif tname.endswith('DSS'):
+        key = r_mpint(p.prime) + r_mpint(p.order) + r_mpint(p.generator) + r_mpint(p.public_key_value)
+    elif tname.endswith('EDDSA'):
+        key = r_string(bytes(p.key_data))
+    elif tname.endswith('ECDSA'):
+        from cryptodatahub.ssh.algorithm import SshEllipticCurveIdentifier
+        ident = [x for x in SshEllipticCurveIdentifier if x.value.named_group == p.named_group][0].value.code
+        width = max((p.point_x.bit_length() + 7) // 8, (p.point_y.bit_length() + 7) // 8)
+        key = r_string(ident.encode('ascii')) + r_string(b'\x04' + p.point_x.to_bytes(width, 'big') + p.point_y.to_bytes(width, 'big'))
+    else:
+        return None
+    sig_key = r_key_blob(c.signature_key)
+    if sig_key is None:
+        return None
+    signature = r_string(c.signature.signature_type.value.code.encode('ascii')) + r_string(bytes(c.signature.signature_data))
+    return (r_string(algo) + r_string(bytes(c.nonce)) + key + r_u64(c.serial) + r_u32(int(c.certificate_type.value.code)) +
+            r_string(c.key_id.encode('ascii')) +
+            r_string(b''.join(r_string(pr.value.encode('ascii')) for pr in c.valid_principals)) +
+            r_instant(c.valid_after) + r_instant(c.valid_before) +
+            r_string(b''.join(r_option(o, wrapped) for o in c.critical_options)) +
+            r_string(b''.join(r_option(o, wrapped) for o in c.extensions)) +
+            r_string(bytes(c.reserved)) + r_string(sig_key) + r_string(signature))
+
+
 def r_message(m):
     name = type(m).__name__
     if name == 'SshKeyExchangeInit':
@@ -157,6 +221,8 @@ def r_encode(obj):
         return r_namelist([tag_text(t) for t in obj])
     if name.startswith('SshHostKey'):
         return r_key_blob(obj)
+    if name.startswith('SshHostCertificateV01'):
+        return r_certificate(obj)
     if name == 'SshProtocolVersion':
         return '{}.{}'.format(int(obj.major), int(obj.minor)).encode('ascii')
     if name == 'SshProtocolMessage':
@@ -274,6 +340,11 @@ def object_findings(name, obj):
         # Line Feed" (compose() refuses longer ones since the repair)
         return [('banner-composed-over-255', 'SshProtocolMessage.compose() produced an identification string of {} '
                  'bytes ({}…); RFC 4253 allows 255'.format(len(data), hx(data)[:60]))]
+    if ref is not None and ref != data and tname.startswith('SshHostCertificateV01') and r_certificate(obj, wrapped=False) == data:
+        # everything but the option data is the specified layout: the recorded deviation, under its own key
+        bad.append(('cert-option-data-not-a-string', '{}: the data of force-command / source-address is written as the bare '
+                    'text, PROTOCOL.certkeys wraps it in a string: composed {}'.format(tname, hx(data)[:200])))
+        ref = data
     if ref is not None and ref != data:
         bad.append(('encode:' + tname, '{}: composed {} but the RFC encoding is {}'.format(tname, hx(data)[:400], hx(ref)[:400])))
     # the reference decoder recovers the values from what the implementation composed
@@ -296,7 +367,11 @@ def object_findings(name, obj):
     if ref is not None:
         try:
             back, n = cls.parse_immutable(ref + b'\x00\x07')
-            if n != len(ref) or clsops.canon_text(canon_fn, back) != clsops.canon_text(canon_fn, obj):
+            same_value = clsops.canon_text(canon_fn, back) == clsops.canon_text(canon_fn, obj)
+            if 'UNMODELLED' in (clsops.canon_text(canon_fn, back), clsops.canon_text(canon_fn, obj)):
+                from harness import canon as _canon
+                same_value = _canon.generic(back) == _canon.generic(obj)     # outside the model: field by field
+            if n != len(ref) or not same_value:
                 bad.append(('parse-of-rfc:' + tname, '{}: RFC encoding {} parses (n={} of {}) to {} instead of {}'.format(
                     tname, hx(ref)[:300], n, len(ref), clsops.canon_text(canon_fn, back)[:200],
                     clsops.canon_text(canon_fn, obj)[:200])))
